@@ -68,7 +68,7 @@ func c16types() {
 
 // names inside the premise of the property, and names that are "version"/"_"
 // extensions of one of them (their buckets coincide with buckets of c16a/c16b)
-var c16premise = []string{"c16a", "c16b", "c16svc", "c16a1", "c16version"}
+var c16premise = []string{"c16a", "c16b", "c16svc", "c16a1", "c16version", "c16service12"}
 var c16collide = []string{"c16aversion", "c16a_x", "c16a_", "c16b_k", "c16aversionversion"}
 
 func c16isName(n string) bool {
@@ -104,6 +104,7 @@ type c16env struct {
 	check                bool
 	codecChanged         bool
 	held                 []c16held
+	bnames               map[string][]byte // svc/x -> the bucket name GetAdditionalBucket returned, kept as a service keeps it
 	heldMu               sync.Mutex
 	nRestart, nPar, nOps int
 	kinds                map[string]bool
@@ -126,6 +127,12 @@ func (e *c16env) hold(op string, v interface{}, enc []byte) {
 func (e *c16env) recheck(after string, fail func(sig, msg string)) {
 	e.heldMu.Lock()
 	defer e.heldMu.Unlock()
+	for id, name := range e.bnames {
+		p := strings.SplitN(id, "/", 2)
+		if want := p[0] + "_" + p[1]; string(name) != want {
+			fail("bucket-name-changed", fmt.Sprintf("the bucket name GetAdditionalBucket(%q) returned to service %s was %q and reads %q after %q", p[1], p[0], want, string(name), c16short(after)))
+		}
+	}
 	for _, hd := range e.held {
 		func() {
 			defer func() {
@@ -200,6 +207,7 @@ func (e *c16env) stop() {
 		e.srv = nil
 		e.ctx = nil
 		e.db = nil
+		e.bnames = nil
 	}
 }
 
@@ -727,6 +735,12 @@ func c16run(res *c16result, mu *sync.Mutex, dir string, class string) {
 				got = "err:nodb"
 			}
 			e.db = db
+			if e.bnames == nil {
+				e.bnames = map[string][]byte{}
+			}
+			if _, kept := e.bnames[tk[2]+"/"+string(x)]; !kept {
+				e.bnames[tk[2]+"/"+string(x)] = name // not copied: the service owns what it was given
+			}
 			emit(got)
 			expect(op, got, "b:"+c16hex([]byte(tk[2]+"_"+string(x))))
 			if e.extra[tk[2]] == nil {
@@ -755,6 +769,9 @@ func c16run(res *c16result, mu *sync.Mutex, dir string, class string) {
 				continue
 			}
 			full := []byte(tk[2] + "_" + string(x))
+			if kept, ok := e.bnames[tk[2]+"/"+string(x)]; ok {
+				full = kept // the name the service was handed, as it is now
+			}
 			got := "ok"
 			var err error
 			switch tk[1] {
@@ -1122,6 +1139,20 @@ func c16genAll(c *h.Ctx, yield func(*h.Case)) {
 	op("loadver c16b")
 	op("bget c16a %s %s", c16hex([]byte("x")), c16hex([]byte("k")))
 	op("bget c16b %s %s", c16hex([]byte("x")), c16hex([]byte("k")))
+	yield(cs)
+	start("corpus-bucket-names-kept") // seeded change C16r2-A: bucket names handed out share the service-name slice
+	op("start c16service12,c16a")
+	op("addb c16service12 %s", c16hex([]byte("x")))
+	op("bput c16service12 %s %s %s", c16hex([]byte("x")), c16hex([]byte("k")), c16hex([]byte{1}))
+	op("addb c16service12 %s", c16hex([]byte("k")))
+	op("bput c16service12 %s %s %s", c16hex([]byte("k")), c16hex([]byte("k")), c16hex([]byte{2}))
+	op("bget c16service12 %s %s", c16hex([]byte("x")), c16hex([]byte("k")))
+	op("bget c16service12 %s %s", c16hex([]byte("k")), c16hex([]byte("k")))
+	op("addb c16a %s", c16hex([]byte("x")))
+	op("addb c16a %s", c16hex([]byte("k")))
+	op("bput c16a %s %s %s", c16hex([]byte("x")), c16hex([]byte("k")), c16hex([]byte{3}))
+	op("bget c16a %s %s", c16hex([]byte("k")), c16hex([]byte("k")))
+	op("bget c16a %s %s", c16hex([]byte("x")), c16hex([]byte("k")))
 	yield(cs)
 	start("corpus-loaded-value-kept") // seeded change C16-B: Load decoding straight from the database page
 	op("start c16a,c16b")
